@@ -53,7 +53,7 @@ class Chains:
         U = rnd.choice(BIG_UNIVERSES if big else UNIVERSES)
         ndim = rnd.choice([1, 1, 2, 2, 2])
         rows = rnd.choice([0, 1, 2, 3, 4, 5, 7, 9, 13])
-        cols = rnd.choice([1, 2, 3])
+        cols = rnd.choice([1, 2, 2, 3, 3, 0])
         shape = (rows,) if ndim == 1 else (rows, cols)
         pool = [self.rand_index(U, shape) for _ in range(2)]
         for _ in range(steps):
@@ -97,6 +97,8 @@ class Chains:
 
     def op_update(self, idx, U):
         rnd = self.rnd
+        if len(idx.shape) == 2 and idx.shape[1] == 0:
+            return self.rec.update(idx, {})
         n = idx.shape[0]
         hcs = [()] if len(idx.shape) == 1 else [(c,) for c in range(idx.shape[1])]
         cells = {}
@@ -199,6 +201,8 @@ class Chains:
 
     def op_set_update(self, idx, U):
         rnd = self.rnd
+        if len(idx.shape) == 2 and idx.shape[1] == 0:
+            return self.rec.set_update(idx, rnd.choice(["union", "inter", "diff"]), [])
         which = rnd.choice(["union", "inter", "diff"])
         D = dense_of(idx)
         n = idx.shape[0]
